@@ -259,6 +259,21 @@ func (ss *session) body(w *world, dc rueidis.DedicatedClient) {
 	}
 }
 
+// invalShape names how the session's invalidation callback stood at release: "callback-installed" or
+// "callback-replaced-by-later-SetPubSubHooks" (SetPubSubHooks after SetOnInvalidations drops the callback).
+func (ss *session) invalShape() string {
+	seen := false
+	shape := "callback-installed"
+	for _, o := range ss.ops {
+		if o == "inval" {
+			seen, shape = true, "callback-installed"
+		} else if o == "sub" && seen {
+			shape = "callback-replaced-by-later-SetPubSubHooks"
+		}
+	}
+	return shape
+}
+
 func short(s string) string {
 	if len(s) > 24 {
 		return s[:24]
@@ -391,7 +406,7 @@ func runScenario(run *mon.Run, sc scen) *world {
 		bg.Add(1)
 		go func() {
 			defer bg.Done()
-			for i := 0; !w.stop.Load() && i < 400; i++ {
+			for i := 0; !w.stop.Load() && i < 150; i++ {
 				u := fmt.Sprintf("P%d.%d", g, i)
 				got, err := client.Do(w.ctx, client.B().Arbitrary("VERIF.ECHO").Keys(echoKey).Args(u, "str").Build()).ToString()
 				if err != nil || got != "echo:"+u {
@@ -411,7 +426,7 @@ func runScenario(run *mon.Run, sc scen) *world {
 		bg.Add(1)
 		go func() {
 			defer bg.Done()
-			for i := 0; !w.stop.Load() && i < 200; i++ {
+			for i := 0; !w.stop.Load() && i < 60; i++ {
 				u := fmt.Sprintf("B%d.%d", g, i)
 				res := client.Do(w.ctx, client.B().Arbitrary("VERIF.ECHO").Keys(echoKey).Args(u, "str").Blocking())
 				got, err := res.ToString()
@@ -636,7 +651,7 @@ func (w *world) evaluate() {
 					if has("CLIENT") {
 						total.trackingOffSeen++
 					} else {
-						run.Violation("cleanup-missing", "CLIENT TRACKING OFF|"+w.sc.topo, w.wit(merge(base, map[string]any{"connection": cid, "zone": zone, "next": next.argv})))
+						run.Violation("cleanup-missing", "CLIENT TRACKING OFF|"+ss.invalShape()+"|"+w.sc.topo, w.wit(merge(base, map[string]any{"connection": cid, "zone": zone, "next": next.argv})))
 					}
 				}
 				if ss.leftMulti && !w.sc.resp2 && !has("DISCARD") {
@@ -719,7 +734,7 @@ func (w *world) evaluate() {
 			total.holdersOnReused += len(hs)
 		}
 	}
-	prevInval := map[int64]bool{}
+	prevInval := map[int64]string{}
 	for _, e := range log {
 		if e.Conn == 0 {
 			continue
@@ -743,11 +758,14 @@ func (w *world) evaluate() {
 				sort.Strings(left)
 				run.Violation("subscriptions-survived-release", fmt.Sprintf("resp2=%v|%s", w.sc.resp2, w.sc.topo), w.wit(map[string]any{"connection": e.Conn, "next_holder": h.owner, "still_subscribed": left}))
 			}
-			if prevInval[e.Conn] && st.tracking {
-				run.Violation("tracking-survived-release", w.sc.topo, w.wit(map[string]any{"connection": e.Conn, "next_holder": h.owner}))
+			if prevInval[e.Conn] != "" && st.tracking {
+				run.Violation("tracking-survived-release", "log|"+prevInval[e.Conn]+"|"+w.sc.topo, w.wit(map[string]any{"connection": e.Conn, "next_holder": h.owner}))
 			}
 			if h.sess != nil && h.sess.connID == e.Conn {
-				prevInval[e.Conn] = h.sess.usedInval && !h.sess.endClose
+				prevInval[e.Conn] = ""
+				if h.sess.usedInval && !h.sess.endClose {
+					prevInval[e.Conn] = h.sess.invalShape()
+				}
 			}
 		case "exec":
 			if len(e.Argv) == 0 {
@@ -794,7 +812,7 @@ func (w *world) evaluate() {
 				run.Violation("subscriptions-survived-release", "session-state|"+w.sc.topo, w.wit(map[string]any{"connection": c, "holder": h.owner, "session": h.sess.atStart}))
 			}
 			if i > 0 && hs[i-1].sess != nil && hs[i-1].sess.usedInval && !hs[i-1].sess.endClose && h.sess.atStart.Tracking {
-				run.Violation("tracking-survived-release", "session-state|"+w.sc.topo, w.wit(map[string]any{"connection": c, "holder": h.owner, "previous": hs[i-1].owner, "session": h.sess.atStart}))
+				run.Violation("tracking-survived-release", "session-state|"+hs[i-1].sess.invalShape()+"|"+w.sc.topo, w.wit(map[string]any{"connection": c, "holder": h.owner, "previous": hs[i-1].owner, "session": h.sess.atStart}))
 			}
 		}
 	}
@@ -1023,12 +1041,12 @@ func TestC25(t *testing.T) {
 			run.Sample(map[string]any{"scenario": sc.String(), "sessions": len(w.sessions), "pipeline_calls": w.pipelineN.Load(), "blocking_calls": w.blockingN.Load()})
 		}
 	}
-	for _, topo := range []string{"single", "cluster", "sentinel"} {
+	for _, topo := range []string{"single", "cluster"} {
 		leakProbe(run, topo, false, false)
 		leakProbe(run, topo, true, false)
-		leakProbe(run, topo, false, true)
-		leakProbe(run, topo, true, true)
 	}
+	leakProbe(run, "single", false, true)
+	leakProbe(run, "sentinel", true, true)
 	run.Observe("sessions", int64(total.sessions))
 	run.Observe("sessions_via_Dedicated_fn", int64(total.viaFn))
 	run.Observe("sessions_ended_by_Close", int64(total.closed))
